@@ -237,7 +237,8 @@ theorem ainv_cleanupBucket {cfg : Cfg} {s : St} (a : AInv cfg s) {b : Nat} {rest
   have hmem : ∀ x ∈ (cacheCleanup s b).1.heap, ∃ e ∈ s.heap,
       x = if evict s.stale b e then { e with inMap := false, deleted := true } else e := by
     intro x hx
-    simp only [cacheCleanup, List.mem_map] at hx
+    rw [cacheCleanup_heap] at hx
+    simp only [evicted, List.mem_map] at hx
     obtain ⟨e, he, rfl⟩ := hx
     exact ⟨e, he, rfl⟩
   refine ⟨a.gl, a.fresh, a.managed, ?_, ?_, ?_, ?_, ?_, ?_⟩
@@ -246,6 +247,8 @@ theorem ainv_cleanupBucket {cfg : Cfg} {s : St} (a : AInv cfg s) {b : Nat} {rest
     obtain ⟨e, he, rfl⟩ := hmem x hx
     split <;> exact a.cachelt e he
   · intro g hg
+    show s.gsize g = genLive (cacheCleanup s b).1.heap g
+    rw [cacheCleanup_heap]
     show s.gsize g = genLive (s.heap.map _) g
     rw [genLive_map, a.acc g hg]
     intro e _
